@@ -1662,6 +1662,15 @@ def packSpecialData(
         return data, attrs
 
     if any(isinstance(d, (tuple, list, np.ndarray)) for d in data):
+        if any(
+            x is None
+            for d in data
+            if isinstance(d, np.ndarray) and d.dtype.kind == "O"
+            for x in d.flat
+        ):
+            # Nones inside of the arrays become the special value as well, so they need
+            # to be replaced when reading, like the Nones that stand for a whole array
+            attrs["nones"] = True
         data = replaceNonesWithNonsense(data, paramName, nones)
         return data, attrs
 
